@@ -473,9 +473,18 @@ fn random_case(rng: &mut Rng) -> CaseOut {
     // mixed slot kinds, created in shuffled order
     let mut u: Vec<Slot> = vec![];
     for i in 0..n {
-        u.push(match rng.below(3) {
-            0 => Slot::numeric((i * 3 + rng.below(3)) as u32),
-            1 => Slot::fresh(),
+        u.push(match rng.below(7) {
+            0 | 1 => Slot::numeric((i * 3 + rng.below(3)) as u32),
+            2 | 3 => Slot::fresh(),
+            4 => {
+                // a name of the form f<k> at (or just above) the point the fresh counter has reached: held by the user from now on,
+                // so no later fill-in slot may be this one
+                let f = Slot::fresh();
+                match f.to_string().strip_prefix("$f").and_then(|x| x.parse::<u32>().ok()) {
+                    Some(k) => Slot::named(&format!("f{}", k + 1 + rng.below(3) as u32)),
+                    None => f,
+                }
+            }
             _ => Slot::named(&format!("n{}x", i)),
         });
     }
